@@ -4,12 +4,12 @@ CONSTANTS Kind = "channel"
           MaxElems = 1
           Credits = {1}
           MaxGrants = 1
-          HasPub = TRUE
+          HasPub = FALSE
           Slot = 0
           SidOff = 0
           AsImplemented = FALSE
-          Frag = 0
-          LibSource = TRUE
+          Frag = 10
+          LibSource = FALSE
 INVARIANT NoClauseFails
 INVARIANT DeliveredIsPrefixOfHanded
 INVARIANT FutureOnce
